@@ -33,6 +33,7 @@ class CodecRunner:
             s.add(c)
         r = s.check()
         self.solver_s += time.time() - t
+        self._last_conds = list(conds)
         if r == z3.sat:
             return s.model()
         if r == z3.unknown:
@@ -40,6 +41,32 @@ class CodecRunner:
         return None
 
     def concretize(self, model, bs):
+        # DateTime validity is an uninterpreted contract symbol in the queries (C15 proves the contract). For a replayable
+        # counterexample the bytes must satisfy the real calendar predicate: re-solve with the symbol defined.
+        conds = getattr(self, '_last_conds', None)
+        if conds:
+            apps = {}
+            todo = list(conds)
+            seen = set()
+            while todo:
+                e = todo.pop()
+                if e.get_id() in seen:
+                    continue
+                seen.add(e.get_id())
+                if z3.is_app(e):
+                    if e.decl().name() == 'datetime_valid':
+                        apps[e.get_id()] = e
+                    todo.extend(e.children())
+            if apps:
+                from .encode import datetime_valid
+                s2 = z3.Solver()
+                s2.set('timeout', 30000)
+                for c in conds:
+                    s2.add(c)
+                for e in apps.values():
+                    s2.add(e == datetime_valid(e.arg(0)))
+                if s2.check() == z3.sat:
+                    model = s2.model()
         out = []
         for b in bs:
             v = model.eval(b, model_completion=True)
